@@ -107,6 +107,14 @@ def gen_finite_spec(H: Chooser, all_recursive=False):
         classes.append({"name": f"C{n}", "kind": H.pick(["data", "data", "plain"]), "parent": a, "weight": None,
                         "fields": [[f"f{k}", gen_finite_type(H, abstracts)] for k in range(nf)]})
         n += 1
+    if H.draw(3) == 0:
+        # a production whose depth runs through a field typed with a plain CONCRETE class (no decision at that level):
+        # Box(inner: Holder), Holder(e: A)
+        classes.append({"name": "D0", "kind": "data", "parent": None, "weight": None,
+                        "fields": [["f0", ["cls", H.pick(abstracts)]]] + ([["f1", ["bool"]]] if H.draw(2) else [])})
+        classes.append({"name": f"C{n}", "kind": "data", "parent": H.pick(abstracts), "weight": None,
+                        "fields": [["f0", ["cls", "D0"]]] + ([["f1", gen_finite_type(H, abstracts, 1)]] if H.draw(2) else [])})
+        n += 1
     considered = [c["name"] for c in classes if c["kind"] in ("data", "plain")]
     return {"classes": classes, "start": "A0", "considered": considered, "future_annotations": False, "expansion_depthing": False}
 
